@@ -1,0 +1,7 @@
+//go:build verif
+
+package manager
+
+// VerifSetFileExtensionHandlersFile points the file extension registry at another file (the path is otherwise
+// fixed at process start). Only compiled with the `verif` build tag.
+func VerifSetFileExtensionHandlersFile(path string) { octosqlFileExtensionHandlersFile = path }
